@@ -97,6 +97,8 @@ Definition judge (c : case) : list verdict :=
   [ if corresponds (cc_oracle c) (cc_initial c) (cc_ops c) (cc_steps c) then VOk else VMismatch;
     clause "C15_apply_is_stateless" a;
     clause "C15_restore_exact" b;
+    (* C05: every exit path ends in Finalise; what it leaves is the user's resource, byte for byte, without the snapshot annotation *)
+    clause "C05_custom_network_resource_back_to_the_users_configuration" b;
     clause "C15_no_noop_writes" n;
     clause "C15_no_panic" (no_panic (cc_steps c)) ].
 
